@@ -62,7 +62,8 @@ def main():
     # ---- PyTrace
     ob = pycheck.observe(fixture("class.i"))
     base = {"id": "good", "inst": ob["inst"], "opts": {"top": [], "ignore": [], "ser": False},
-            "events": ob["scan"]["events"], "includes": ob["scan"]["includes"]}
+            "events": ob["scan"]["events"], "includes": ob["scan"]["includes"],
+            "export": [l for l in ob["scan"]["export"].split("\n") if l.strip()]}
     b1 = copy.deepcopy(base); b1["id"] = "callee-changed"
     for e in b1["events"]:
         if e["ev"] == "def" and e["callee"].startswith("self->"):
